@@ -36,6 +36,13 @@ theorem C03_branch_own_le_sub (E : Env) (order : List Nat) (hnd : order.Nodup) (
     ∀ t ∈ preL (run E order), ∀ a ∈ t.own, ∀ b ∈ pixelsL t.kids, E.val a ≤ E.val b :=
   ContourP.run_branch_own_le_sub E order hnd hsorted hnoprune
 
+/-- **C03 (trunk structures are exactly the connected components).** Two above-threshold pixels lie
+in the same parentless structure iff they are connected through above-threshold pixels. -/
+theorem C03_trunk_eq_components (E : Env) (hsym : SymmAdj E) (order : List Nat) (hnd : order.Nodup)
+    (p q : Nat) (hp : p ∈ order) (hq : q ∈ order) :
+    (∃ t ∈ run E order, p ∈ t.pixels ∧ q ∈ t.pixels) ↔ Conn E.nbrs (fun x => x ∈ order) p q :=
+  P21.trunk_eq_components E hsym order hnd p q hp hq
+
 -- non-vacuity: the 6-pixel row is sorted, duplicate-free, and its adjacency is symmetric
 example : let E := envOf (fun p => [1, 10, 5, 9, 2, 8][p]!) (Grid.nbrs [6] []) []
     [1, 3, 5, 2, 4, 0].Nodup ∧ sortedDesc E.val [1, 3, 5, 2, 4, 0] = true := by decide
